@@ -1,7 +1,7 @@
 //@@ include url_types
 //@@ include str_prelude
 // ===================== url crate: opaque Url + assumed accessors (trusted; RFC 3986 parsing is the url crate's) =====================
-#[verifier::external_type_specification] #[verifier::external_body] pub struct ExParseError(url::ParseError);
+#[verifier::external_type_specification] pub struct ExParseError(url::ParseError);
 #[verifier::external_type_specification] #[verifier::external_body] #[verifier::accept_recursive_types(S)] pub struct ExHost<S>(url::Host<S>);
 pub uninterp spec fn url_host(u: &Url) -> Option<Seq<char>>;          // host_str(): domain lower-cased, IPv6 literal bracketed
 pub uninterp spec fn url_scheme_is(u: &Url, s: &str) -> bool;
@@ -89,3 +89,9 @@ pub uninterp spec fn as_ref_str_spec<T>(t: T) -> Seq<char>;
 /// `pattern.as_ref()` for `impl AsRef<str>`
 #[verifier::external_body]
 pub fn vp_as_ref_str<T: AsRef<str>>(t: &T) -> (r: &str) ensures r@ == as_ref_str_spec(*t) { t.as_ref() }
+
+/// `url.scheme()` as a value usable in a tuple `match` with literal patterns
+#[verifier::external_body]
+pub fn vp_scheme_str(u: &Url) -> (r: &str)
+    ensures (r == "http") == url_scheme_is(u, "http"), (r == "https") == url_scheme_is(u, "https"), !(url_scheme_is(u, "http") && url_scheme_is(u, "https"))
+{ u.scheme() }
